@@ -1,6 +1,7 @@
 package main
 
 import (
+	"go/constant"
 	"fmt"
 	"go/token"
 	"go/types"
@@ -657,38 +658,52 @@ func visitedGuarded(f *ssa.Function, call ssa.Instruction, row *guardRow) (bool,
 			}
 		}
 	})
+	// The test is by presence (the ok of a comma-ok look-up, Contains/Has) or by
+	// value (the looked-up element itself): the release must undo what the test reads.
+	byPresence, byValue := false, false
 	for _, tv := range tests {
-		var conds []ssa.Value
-		var walk func(v ssa.Value, d int)
-		walk = func(v ssa.Value, d int) {
+		type cond struct {
+			v        ssa.Value
+			presence bool
+		}
+		var conds []cond
+		var walk func(v ssa.Value, d int, presence bool)
+		walk = func(v ssa.Value, d int, presence bool) {
 			if d > 4 || v.Referrers() == nil {
 				return
 			}
 			for _, r := range *v.Referrers() {
 				switch y := r.(type) {
 				case *ssa.Extract:
-					walk(y, d+1)
+					walk(y, d+1, y.Index == 1)
 				case *ssa.BinOp:
-					conds = append(conds, y)
-					walk(y, d+1)
+					conds = append(conds, cond{y, presence})
+					walk(y, d+1, presence)
 				case *ssa.UnOp:
-					walk(y, d+1)
+					walk(y, d+1, presence)
 				case *ssa.If:
-					conds = append(conds, v)
+					conds = append(conds, cond{v, presence})
 				}
 			}
 		}
-		walk(tv, 0)
+		_, isLookup := tv.(*ssa.Lookup)
+		walk(tv, 0, !isLookup) // Contains/Has: presence; plain look-up: value
 		for _, cv := range conds {
-			for _, br := range branchesOn(cv) {
+			for _, br := range branchesOn(cv.v) {
 				t := blockReaches(br.TrueSucc, call.Block(), nil)
 				fl := blockReaches(br.FalseSucc, call.Block(), nil)
 				if t != fl {
 					tested = true
+					if cv.presence {
+						byPresence = true
+					} else {
+						byValue = true
+					}
 				}
 			}
 		}
 	}
+	_ = byValue
 	if !tested {
 		return false, fmt.Sprintf("the call is not control-dependent on a membership test of the visited container %q", row.Container)
 	}
@@ -696,7 +711,19 @@ func visitedGuarded(f *ssa.Function, call ssa.Instruction, row *guardRow) (bool,
 		rel := func(i ssa.Instruction) bool {
 			switch x := i.(type) {
 			case *ssa.MapUpdate:
-				return containerMatches(x.Map, row) && i != insert
+				if !containerMatches(x.Map, row) || i == insert {
+					return false
+				}
+				// a decrement is the counter idiom: it releases when a delete of the
+				// emptied entry follows (presence test) or by itself (value test)
+				if b, ok := x.Value.(*ssa.BinOp); ok && b.Op == token.SUB {
+					return !byPresence || hasDelete(f, row)
+				}
+				// storing the zero value releases a test by value only
+				if c, ok := x.Value.(*ssa.Const); ok && isZeroConst(c) {
+					return !byPresence
+				}
+				return false
 			case *ssa.Call:
 				if b, ok := x.Call.Value.(*ssa.Builtin); ok && b.Name() == "delete" && containerMatches(x.Call.Args[0], row) {
 					return true
@@ -734,6 +761,33 @@ func visitedGuarded(f *ssa.Function, call ssa.Instruction, row *guardRow) (bool,
 		}
 	}
 	return true, fmt.Sprintf("membership test and insertion on %q precede the call%s", row.Container, map[bool]string{true: "; mark released on all success paths", false: ""}[row.Release])
+}
+
+func hasDelete(f *ssa.Function, row *guardRow) bool {
+	found := false
+	eachInstr(f, func(_ *ssa.BasicBlock, i ssa.Instruction) {
+		if x, ok := i.(*ssa.Call); ok {
+			if b, ok := x.Call.Value.(*ssa.Builtin); ok && b.Name() == "delete" && containerMatches(x.Call.Args[0], row) {
+				found = true
+			}
+		}
+	})
+	return found
+}
+
+func isZeroConst(c *ssa.Const) bool {
+	if c.Value == nil {
+		return true
+	}
+	switch c.Value.Kind() {
+	case constant.Bool:
+		return !constant.BoolVal(c.Value)
+	case constant.Int, constant.Float:
+		return constant.Sign(c.Value) == 0
+	case constant.String:
+		return constant.StringVal(c.Value) == ""
+	}
+	return false
 }
 
 // blockReaches: can `from` reach `to` without passing through `avoid`?
